@@ -4,12 +4,10 @@ go 1.21
 
 require (
 	github.com/antlr4-go/antlr/v4 v4.13.0
+	github.com/blang/semver v3.5.1+incompatible
 	github.com/nikunjy/rules v0.0.0
 )
 
-require (
-	github.com/blang/semver v3.5.1+incompatible // indirect
-	golang.org/x/exp v0.0.0-20230515195305-f3d0a9c9a5cc // indirect
-)
+require golang.org/x/exp v0.0.0-20230515195305-f3d0a9c9a5cc // indirect
 
 replace github.com/nikunjy/rules => /repo
